@@ -1,5 +1,6 @@
 import QmcProofs.KernelInvarianceMask
 import QmcProofs.KernelInvarianceSweep
+import QmcProofs.KernelInvarianceComponents
 import Mathlib.Tactic.NormNum
 
 /-!
@@ -323,6 +324,85 @@ theorem timestep_invariant_sum (H : Ham) (β : Rat) (hβ : 0 < β) (hw : ∀ b i
 
 end Qmc.Kernel
 
+
+/-! ## 7. with the model's own cluster decomposition: nothing left to assume about the clusters -/
+
+namespace Qmc.Kernel
+open Qmc Qmc.Dist
+
+/-- **`timestep_invariant` for the decomposition the model computes** (`compLab`, C09
+`ClusterComponents`): for every Hamiltonian with non-negative diagonal weights whose bonds act on
+distinct variables below `N` and which satisfies the symmetry hypothesis of `clusterMove_weight`, one
+step "sweep ; flip every flippable component with probability ½ ; refresh" leaves the SSE weight
+invariant on the whole configuration space. -/
+theorem timestep_invariant_components (H : Ham) (β : Rat) (hβ : 0 < β) (hw : ∀ b i, 0 ≤ H.w b i i)
+    (fr : SkOp → Bool) (N L : Nat) (hV : VarsOK H N) (hH : ClusterSym H fr (cfgSpace H N L)) :
+    Invariant (sseOn H β (cfgSpace H N L))
+      (timestepK H β (ClusterFamily.ofComponents fr H N L hV) L N) :=
+  timestep_invariant H β hβ hw _ hH (cfgSpace_closed H N L) L N
+
+theorem timestep_invariant_components_hb (H : Ham) (β : Rat) (hβ : 0 < β)
+    (hw : ∀ b i, 0 ≤ H.w b i i) (hW : 0 < (makeBondWeights H).sum)
+    (fr : SkOp → Bool) (N L : Nat) (hV : VarsOK H N) (hH : ClusterSym H fr (cfgSpace H N L)) :
+    Invariant (sseOn H β (cfgSpace H N L))
+      (timestepKHB H (makeBondWeights H) β (ClusterFamily.ofComponents fr H N L hV) L N) :=
+  timestep_invariant_hb H _ β hβ hW hw (makeBondWeights_valid H) (makeBondWeights_length H) _ hH
+    (cfgSpace_closed H N L) L N
+
+theorem absR_ge (x : Rat) : -x ≤ absR x ∧ x ≤ absR x := by
+  unfold absR; split <;> constructor <;> linarith
+
+/-- the Ising matrix elements are non-negative for Γ ≥ 0 -/
+theorem isingClusterHam_nonneg (edges : List (List Nat × Rat)) (g hz : Rat) (nvars : Nat) (hg : 0 ≤ g) :
+    ∀ b i, 0 ≤ (isingClusterHam edges g hz nvars).w b i i := by
+  intro b i
+  simp only [isingClusterHam]
+  split
+  · generalize (edges[b]?.map (·.2)).getD 0 = J
+    have := absR_ge J
+    rcases i with _ | ⟨a, _ | ⟨c, _ | ⟨d, t⟩⟩⟩ <;> simp only [twoSiteW, le_refl]
+    simp only [beq_self_eq_true, Bool.and_self, if_true]
+    split <;> linarith [this.1, this.2]
+  · split
+    · exact hg
+    · have := absR_ge hz
+      rcases i with _ | ⟨a, _ | ⟨c, t⟩⟩ <;> simp only [longitudinalW, le_refl]
+      cases a <;> simp <;> linarith [this.1, this.2]
+
+
+/-- the Ising bonds act on distinct in-range variables when the edges do -/
+theorem ising_varsOK (edges : List (List Nat × Rat)) (g hz : Rat) (nvars : Nat)
+    (he : ∀ e ∈ edges, e.1.Nodup ∧ ∀ v ∈ e.1, v < nvars) :
+    VarsOK (isingClusterHam edges g hz nvars) nvars := by
+  intro b hb
+  simp only [isingClusterHam] at hb ⊢
+  by_cases h1 : b < edges.length
+  · simp only [h1, if_true, List.getElem?_eq_getElem h1, Option.map_some, Option.getD_some]
+    exact he _ (List.getElem_mem h1)
+  · simp only [h1, if_false]
+    by_cases h2 : b < edges.length + nvars
+    · simp only [h2, if_true]
+      refine ⟨by simp, ?_⟩
+      intro v hv; simp at hv; omega
+    · simp only [h2, if_false]
+      refine ⟨by simp, ?_⟩
+      intro v hv; simp at hv; omega
+
+/-- **The transverse-field Ising sampler, all parameters**: any graph (edges on distinct
+variables), couplings of any sign, Γ ≥ 0, any longitudinal field (its bonds frozen), β > 0, any
+cutoff `L`: one `timestep` with the model's cluster decomposition leaves the SSE weight invariant
+on the configuration space.  No hypothesis is left except those on the parameters. -/
+theorem ising_timestep_invariant (edges : List (List Nat × Rat)) (g hz : Rat) (nvars L : Nat)
+    (he : ∀ e ∈ edges, e.1.Nodup ∧ ∀ v ∈ e.1, v < nvars) (hg : 0 ≤ g) (β : Rat) (hβ : 0 < β) :
+    Invariant (sseOn (isingClusterHam edges g hz nvars) β (cfgSpace (isingClusterHam edges g hz nvars) nvars L))
+      (timestepK (isingClusterHam edges g hz nvars) β
+        (ClusterFamily.ofComponents (isingFrozen edges.length nvars) _ nvars L
+          (ising_varsOK edges g hz nvars he)) L nvars) :=
+  timestep_invariant_components _ β hβ (isingClusterHam_nonneg edges g hz nvars hg) _ nvars L _
+    (ising_clusterSym edges g hz nvars nvars L)
+
+end Qmc.Kernel
+
 /-! ## non-vacuity: concrete instances of every hypothesis -/
 
 namespace Qmc.Kernel.Example
@@ -371,26 +451,6 @@ example : Reversible (fun b : Bool => if b then (2 : Rat) else 1)
 /-- `QmcIsingGraph` with one edge `(0,1)`, `J = 1`, three variables -/
 def H : Ham := isingClusterHam [([0, 1], 1)] (1 / 2) (1 / 4) 3
 def fr : SkOp → Bool := isingFrozen 1 3
-
-theorem absR_ge (x : Rat) : -x ≤ absR x ∧ x ≤ absR x := by
-  unfold absR; split <;> constructor <;> linarith
-
-/-- the Ising matrix elements are non-negative for Γ ≥ 0 -/
-theorem isingClusterHam_nonneg (edges : List (List Nat × Rat)) (g hz : Rat) (nvars : Nat) (hg : 0 ≤ g) :
-    ∀ b i, 0 ≤ (isingClusterHam edges g hz nvars).w b i i := by
-  intro b i
-  simp only [isingClusterHam]
-  split
-  · generalize (edges[b]?.map (·.2)).getD 0 = J
-    have := absR_ge J
-    rcases i with _ | ⟨a, _ | ⟨c, _ | ⟨d, t⟩⟩⟩ <;> simp only [twoSiteW, le_refl]
-    simp only [beq_self_eq_true, Bool.and_self, if_true]
-    split <;> linarith [this.1, this.2]
-  · split
-    · exact hg
-    · have := absR_ge hz
-      rcases i with _ | ⟨a, _ | ⟨c, t⟩⟩ <;> simp only [longitudinalW, le_refl]
-      cases a <;> simp <;> linarith [this.1, this.2]
 
 theorem H_nonneg : ∀ b i, 0 ≤ H.w b i i := isingClusterHam_nonneg _ _ _ _ (by norm_num)
 
@@ -543,5 +603,13 @@ example : (1 / 4 : Rat) ≤ clusterK fam Qmc.C09.exB Qmc.C09.exA := by
     simp only [hg]
   rw [h3, h2, hq1]
   nlinarith [h0, h1]
+
+theorem H_edges : ∀ e ∈ [(([0, 1] : List Nat), (1 : Rat))], e.1.Nodup ∧ ∀ v ∈ e.1, v < 3 := by
+  intro e he; simp at he; subst he; exact ⟨by decide, by decide⟩
+
+/-- item 6 with the model's own decomposition: nothing about the clusters is assumed -/
+example : Invariant (sseOn H (3 / 2) (cfgSpace H 3 5))
+    (timestepK H (3 / 2) (ClusterFamily.ofComponents fr H 3 5 (ising_varsOK _ _ _ _ H_edges)) 5 3) :=
+  ising_timestep_invariant _ _ _ 3 5 H_edges (by norm_num) _ (by norm_num)
 
 end Qmc.Kernel.Example
